@@ -6,6 +6,7 @@ package main
 import (
 	"encoding/json"
 	"fmt"
+	"github.com/internetarchive/Zeno/internal/pkg/controler/pause"
 	"os"
 	"sort"
 	"strings"
@@ -26,6 +27,9 @@ type scen struct {
 	After map[int]int   `json:"after,omitempty"` // seed index -> insert only after that many finishes
 	P     int           `json:"p"`
 	Stop  bool          `json:"stop,omitempty"` // a stop request (the real stop order) is a thread of the scenario
+	// PauseResume: a controller pauses the pipeline and resumes it, anywhere in the run (the crawl goes on afterwards:
+	// every seed must still be finished exactly once)
+	PauseResume bool `json:"pause_resume,omitempty"`
 }
 
 // oracleStop: with a stop request somewhere in the run not every seed finishes, but one that is
@@ -57,6 +61,9 @@ func (s *scen) name() string {
 	if s.Stop {
 		n += " +stop"
 	}
+	if s.PauseResume {
+		n += " +pause-resume"
+	}
 	return n
 }
 
@@ -79,6 +86,13 @@ func scenario(s *scen) *vsched.Scenario {
 			go func() { // stop request: after the drain by default, every deviation moves it earlier
 				vsched.Point("h:stop requested", nil)
 				w.Stop()
+			}()
+		}
+		if s.PauseResume {
+			go func() { // controller: after the drain by default, every deviation moves it earlier
+				vsched.Point("h:pause requested", nil)
+				pause.Pause("verif")
+				pause.Resume()
 			}()
 		}
 		for i, u := range s.Def.Seeds {
@@ -247,6 +261,22 @@ func scenarios(tier string) []scen {
 		d2 := world.SiteDef{Name: "include-host: seed redirecting out of scope", Seeds: []string{world.H + "/r"}, Nodes: []world.Node{{URL: world.H + "/r", Kind: "redirect", Location: "http://cdn.elsewhere.net/x.png"}}}
 		out = append(out, scen{Def: d2, Opt: world.Options{Workers: 1, MaxConcurrentAssets: 1, MaxRetry: 1, MaxRedirect: 2, IncludeHosts: []string{"s.example"}}, P: depthP})
 	}
+	// redirections under the configurations of a large crawl: no assets capture, no seen-store (what stops a loop
+	// is then the in-tree de-duplication and --max-redirect alone)
+	for _, sk := range []string{"loop", "loopb", "wall", "redir2"} {
+		for _, o := range []world.Options{{Workers: 1, MaxConcurrentAssets: 1, MaxRetry: 0, MaxRedirect: 5, DisableAssets: true, NoSeencheck: true},
+			{Workers: 1, MaxConcurrentAssets: 1, MaxRetry: 0, MaxRedirect: 5, DisableAssets: true}, {Workers: 1, MaxConcurrentAssets: 1, MaxRetry: 0, MaxRedirect: 5, NoSeencheck: true}} {
+			d := world.MkSite("seed="+sk+" assets=bin", sk, []string{"bin"})
+			d.Name += fmt.Sprintf(" disable-assets=%v seencheck=%v", o.DisableAssets, !o.NoSeencheck)
+			out = append(out, scen{Def: d, Opt: o, P: sweepP})
+		}
+	}
+	// a pause / resume cycle placed anywhere in the run: the crawl goes on and no seed is lost
+	for _, name := range [][]string{{"page", "bin", "redir"}, {"redir1", "m3u8", "flaky"}} {
+		d := world.MkSite("seed="+name[0]+" assets="+name[1]+"+"+name[2], name[0], name[1:])
+		out = append(out, scen{Def: d, Opt: world.Options{Workers: 1, MaxConcurrentAssets: 1, MaxRetry: 1, MaxRedirect: 2}, P: sweepP + 1, PauseResume: true})
+	}
+	out = append(out, scen{Def: world.DepthSites()[0].Def, Opt: world.Options{Workers: 2, MaxConcurrentAssets: 1, MaxRetry: 1, MaxRedirect: 2}, P: sweepP, PauseResume: true})
 	// the same sites with a stop request placed anywhere in the run
 	for _, name := range [][]string{{"page", "bin", "redir"}, {"redir1", "m3u8", "flaky"}, {"page", "cut", "redirB"}} {
 		d := world.MkSite("seed="+name[0]+" assets="+name[1]+"+"+name[2], name[0], name[1:])
